@@ -43,6 +43,9 @@ def col_fmt(case, c):
             s += ":%d" % c["min"]
         else:
             s += ":%d-%d" % (c["min"], c["max"])
+        if c.get("annot") is not None:
+            # "(n)": the width a printed table reports next to the range; informational only when read back
+            s += "(%d)" % c["annot"]
     return s
 
 
@@ -52,7 +55,7 @@ def fmt_string(case, with_limits=True):
         parts.append(",".join(col_fmt(case, c) for c in case["cols"]))
     else:
         parts.append("")
-    if with_limits and case.get("limits") is not None and case.get("limits_via") == "fmt":
+    if with_limits and case.get("limits") is not None and case.get("limits_via") == "fmt" and None not in case["limits"]:
         parts.append("%d:%d" % tuple(case["limits"]))
     s = ";".join(parts)
     return s if s else None
@@ -405,9 +408,13 @@ def st_enum(draw):
 def st_cols(draw, field_idxs, fields, enums, allow_hidden):
     ncol = draw(st.integers(1, 6))
     cols = []
+    # fmt strings copied from a printed table carry "(n)" after the width range - here stale ones (any n): on some columns
+    # or on all of them
+    annot = draw(st.sampled_from([None, None, None, None, "some", "all"]))
     for _ in range(ncol):
         fi = draw(st.sampled_from(field_idxs))
-        wkind = draw(st.sampled_from(["none", "none", "fixed", "range", "range", "zero", "tiny"]))
+        wkind = draw(st.sampled_from(["none", "none", "fixed", "range", "range", "zero", "tiny"] if annot != "all" else
+                                     ["fixed", "range", "range", "zero", "tiny"]))
         mn = mx = None
         if wkind == "fixed":
             mn = mx = draw(st.integers(0, 15))
@@ -424,6 +431,8 @@ def st_cols(draw, field_idxs, fields, enums, allow_hidden):
             mod = draw(st.sampled_from([None, "val", "name", "full"]))
         cols.append({"f": fi, "min": mn, "max": mx, "brk": draw(st.integers(0, 4)) == 0, "mod": mod,
                      "hidden": allow_hidden and draw(st.integers(0, 9)) == 0})
+        if mn is not None and (annot == "all" or (annot == "some" and draw(st.booleans()))):
+            cols[-1]["annot"] = draw(st.integers(0, 30))
     if all(c["hidden"] for c in cols):
         cols[0]["hidden"] = False
     return cols
@@ -536,6 +545,10 @@ def st_table_case(draw, max_records=40, allow_dict=True, allow_enum=True, allow_
             "limits": draw(st.none() | st.tuples(st.integers(0, 6), st.integers(0, 6)).map(list)),
             "limits_via": draw(st.sampled_from(["fmt", "arg"])),
             "skip": []}
+    if draw(st.integers(0, 7)) == 0:
+        # limits=(n, None) / (None, m): "tuple of two optional integers" - limits apply only when both are given
+        case["limits"] = draw(st.sampled_from([[3, None], [None, 2], [None, 0], [0, None], [1, None], [None, None]]))
+        case["limits_via"] = "arg"
     if draw(st.integers(0, 5)) == 0:
         vis = visible_cols(case)
         names = sorted({fields[c["f"]] for c in vis})
